@@ -451,6 +451,39 @@ def yaml_fixed_worlds():
     return ws
 
 
+def yaml_stream_worlds():
+    """a stream of several YAML documents through a matcher: the documents stay apart (the `---` markers are kept), the
+    ones the path does not address come out as they went in"""
+    ws = []
+    streams = [('a: 1\nkind: X\n---\nb: 2\nkind: Y\n', '$.a', ['b: 2\nkind: Y']),
+               ('kind: Deployment\nname: web\n---\nkind: Service\nname: web\n---\nkind: Ingress\nhost: h\n', '$.host', None),
+               ('---\na: 1\n---\nb: 2\n', '$.a', ['b: 2']),
+               ('a: 1\nl:\n  - x\n---\nz: [1, 2]\n', '$.l[0]', ['z: [1, 2]'])]
+    for n, (doc, path, untouched) in enumerate(streams):
+        for kind in ('A', 'C', 'T'):
+            w = World('c15ys-%d-%s' % (n, kind))
+            ndocs = len([d for d in ('\n' + doc).split('\n---\n') if d.strip()])
+            mt = docs.any_matcher([path], '"MASK"', False) if kind == 'A' else (docs.custom_matcher(path, True, '"MASK"', False) if kind == 'C' else docs.type_matcher([path], 'any', False))
+
+            def oracle(line, raw, ww, ndocs=ndocs, untouched=untouched, doc=doc):
+                if not raw.startswith('mdoc '):
+                    return 'the matcher did not return (%s)' % raw[:120]
+                f = dict(x.split(':', 1) for x in raw.split(' ')[1].split('|'))
+                out = bytes.fromhex(f['out']).decode('utf-8', 'replace')
+                if [e for e in f['errs'].split('+') if e]:
+                    return None         # (a path that some document lacks may be reported; then nothing is handed on)
+                parts = [d for d in ('\n' + out).split('\n---\n') if d.strip()]
+                if len(parts) != ndocs:
+                    return 'a stream of %d documents came out as %d: %r' % (ndocs, len(parts), out)
+                for u in untouched or []:
+                    if not any(pt.strip() == u for pt in parts):
+                        return 'the document %r the path does not address did not come out as it went in: %r' % (u, out)
+                return None
+            w.add('mdoc yaml %s %s' % (hx(doc), mt), ('yaml-stream-documents-kept-apart', oracle))
+            ws.append(w)
+    return ws
+
+
 def run(ctx):
     jsonlens.run_json_lens(ctx)
     g = Gen(ctx.seed * 1000003 + 15)
@@ -459,6 +492,7 @@ def run(ctx):
     worlds = [make_world(g, 'c15-%d' % i) for i in range(n)]
     worlds += [yaml_world(g, 'c15y-%d' % i) for i in range(n // 2)]
     worlds += yaml_fixed_worlds()
+    worlds += yaml_stream_worlds()
     run_suite(ctx, 'matchers.direct', worlds, known=known, use_model=False, chunk=1000)
     worlds = [entry_world(g, 'c15e-%d' % i) for i in range(n // 2)]
     run_suite(ctx, 'matchers.entrypoints', worlds, known=known, chunk=500)
